@@ -24,7 +24,9 @@ fn only_probe_frames(d: &DgRec) -> Option<bool> {
 pub fn case(x: &Xfer) -> CaseOut {
     // KF1 (pad_to_mtu, see C02) can stall a transfer; liveness after an MTU drop is asserted only
     // without it
-    let r = run_xfer(x, 600_000_000, true);
+    // (up to the hard end of one virtual hour: after a black hole the fallback needs several loss bursts, each
+    // a probe timeout apart, and the statement sets no deadline)
+    let r = run_xfer(x, 3_500_000_000, true);
     if r.world.hit_step_limit {
         return CaseOut::inconclusive("step limit");
     }
@@ -165,7 +167,20 @@ pub fn case(x: &Xfer) -> CaseOut {
     if !r.completed && !pad && !kf && lost.is_empty() && w.stats.dgrams_mtu_dropped > 0 && x.net.client_move_at_us.is_none() {
         return CaseOut::fail(
             "c13/no-recovery-after-mtu-drop",
-            format!("link dropped {} oversized datagrams and the transfer never completed (now {} us); MTU estimates {:?}", w.stats.dgrams_mtu_dropped, w.now, w.conns.iter().map(|c| c.c.current_mtu()).collect::<Vec<_>>()),
+            format!(
+                "link dropped {} oversized datagrams and the transfer never completed (now {} us); MTU estimates {:?}; {:?}\n{}",
+                w.stats.dgrams_mtu_dropped,
+                w.now,
+                w.conns.iter().map(|c| c.c.current_mtu()).collect::<Vec<_>>(),
+                w.conns
+                    .iter()
+                    .map(|c| {
+                        let p = c.c.verif_probe();
+                        format!("{:?}: state {} in_flight {} window {} pto_count {} timers {:?} sent_packets {:?} black_holes {} lost_packets {} out_complete {}", c.side, p.state, p.bytes_in_flight, p.congestion_window, p.pto_count, p.timers_armed, p.sent_packets, c.c.stats().path.black_holes_detected, c.c.stats().path.lost_packets, c.app.outgoing_complete())
+                    })
+                    .collect::<Vec<_>>(),
+                w.dump_trace(w.trace.len().saturating_sub(40), 40)
+            ),
         );
     }
     let black_holes: u64 = w.conns.iter().map(|c| c.c.stats().path.black_holes_detected).sum();
